@@ -10,6 +10,7 @@ import (
 	"bufio"
 	"context"
 	"crypto/sha1"
+	"crypto/tls"
 	"encoding/base64"
 	"errors"
 	"fmt"
@@ -287,6 +288,8 @@ type scenario struct {
 	ConnectDelay time.Duration
 	IgnoreCtx    bool // NetDial does not look at its context (a custom dialer may not)
 	TLS          bool
+	RealTLS      bool // wss through the library's default tls.Client (no TLSClient stub): the peer never answers the ClientHello
+	StatusBody   bool // peer 1 announces a body that never arrives; Dialer.OnStatusError reads its reader
 	Wrap         bool
 	Peer         int // 0 responsive 1 rejecting 2 silent 3 write-blocking
 	RespDelay    time.Duration
@@ -298,8 +301,8 @@ type scenario struct {
 }
 
 func (s scenario) String() string {
-	return fmt.Sprintf("ctx=%d(dl=%v) timeout=%v connect=%v(ignoreCtx=%v) tls=%v wrap=%v peer=%d respDelay=%v segs=%d gap=%v trailing=%v rbuf=%d segmax=%d",
-		s.CtxKind, s.CtxDeadline, s.Timeout, s.ConnectDelay, s.IgnoreCtx, s.TLS, s.Wrap, s.Peer, s.RespDelay, s.Segs, s.Gap, s.Trailing, s.RBuf, s.SegMax)
+	return fmt.Sprintf("ctx=%d(dl=%v) timeout=%v connect=%v(ignoreCtx=%v) tls=%v(real=%v) statusBody=%v wrap=%v peer=%d respDelay=%v segs=%d gap=%v trailing=%v rbuf=%d segmax=%d",
+		s.CtxKind, s.CtxDeadline, s.Timeout, s.ConnectDelay, s.IgnoreCtx, s.TLS, s.RealTLS, s.StatusBody, s.Wrap, s.Peer, s.RespDelay, s.Segs, s.Gap, s.Trailing, s.RBuf, s.SegMax)
 }
 
 // cancelPlan says when the harness cancels the caller's context.
@@ -407,7 +410,9 @@ func execute(sc scenario, plan cancelPlan) (o *outcome) {
 					return
 				}
 				var resp string
-				if sc.Peer == 1 {
+				if sc.Peer == 1 && sc.StatusBody {
+					resp = "HTTP/1.1 400 Bad Request\r\nContent-Length: 10\r\n\r\n" // the body never comes
+				} else if sc.Peer == 1 {
 					resp = "HTTP/1.1 400 Bad Request\r\nContent-Length: 0\r\n\r\n"
 				} else {
 					resp = "HTTP/1.1 101 Switching Protocols\r\nUpgrade: websocket\r\nConnection: Upgrade\r\nSec-WebSocket-Accept: " +
@@ -475,8 +480,14 @@ func execute(sc scenario, plan cancelPlan) (o *outcome) {
 			sim = c
 			return c, nil
 		}
-		if sc.TLS {
+		if sc.TLS && !sc.RealTLS {
 			d.TLSClient = func(c net.Conn, hostname string) net.Conn { return wrapConn{c} }
+		}
+		if sc.RealTLS {
+			d.TLSConfig = &tls.Config{InsecureSkipVerify: true}
+		}
+		if sc.StatusBody {
+			d.OnStatusError = func(status int, reason []byte, resp io.Reader) { io.Copy(io.Discard, resp) }
 		}
 		if sc.Wrap {
 			d.WrapConn = func(c net.Conn) net.Conn { return wrapConn{c} }
@@ -554,6 +565,7 @@ func drawScenario(r *eng.Run) scenario {
 	sc.Peer = []int{0, 0, 0, 1, 2, 2, 3}[r.T.Int(sim.LCfg, 7)]
 	sc.ConnectDelay = []time.Duration{0, 50 * ms}[r.T.Int(sim.LDelay, 2)]
 	sc.IgnoreCtx = r.T.Chance(sim.LCfg, 1, 3)
+	sc.StatusBody = sc.Peer == 1 && r.T.Bool(sim.LCfg)
 	sc.RespDelay = []time.Duration{0, 100 * ms, 300 * ms}[r.T.Int(sim.LDelay, 3)]
 	sc.Segs = 1 + r.T.Int(sim.LSeg, 4)
 	sc.Gap = []time.Duration{0, 100 * ms}[r.T.Int(sim.LDelay, 2)]
@@ -571,7 +583,15 @@ func drawScenario(r *eng.Run) scenario {
 	case 1, 2:
 		sc.Timeout = instants[r.T.Int(sim.LDelay, len(instants))]
 	}
+	if sc.TLS && r.T.Bool(sim.LCfg) {
+		// The library's own TLS client against a peer that never answers the
+		// ClientHello.
+		sc.RealTLS, sc.Peer = true, 2
+	}
 	// Something must be able to end the wait on a silent / blocking peer.
+	if sc.StatusBody && sc.CtxKind == 0 && sc.Timeout == 0 {
+		sc.Timeout = 451 * ms
+	}
 	if (sc.Peer == 2 || sc.Peer == 3) && sc.CtxKind == 0 && sc.Timeout == 0 {
 		sc.Timeout = 451 * ms
 	}
@@ -588,7 +608,7 @@ func C20(r *eng.Run) {
 	// A cancel-only context facing a peer that never lets the handshake end
 	// needs the harness to cancel eventually, otherwise blocking forever is
 	// correct behaviour.
-	needsEnd := (sc.Peer == 2 || sc.Peer == 3) && sc.CtxKind == 1 && sc.Timeout == 0
+	needsEnd := (sc.Peer == 2 || sc.Peer == 3 || sc.StatusBody) && sc.CtxKind == 1 && sc.Timeout == 0
 	var plans []cancelPlan
 	if !needsEnd {
 		plans = append(plans, cancelPlan{Kind: "none"})
@@ -615,6 +635,13 @@ func C20(r *eng.Run) {
 		for k := 0; k < nops+1; k++ {
 			plans = append(plans, cancelPlan{Kind: "op", K: k, Phase: "enter"}, cancelPlan{Kind: "op", K: k, Phase: "exit"})
 		}
+		// Mode (C): cancel without letting the watcher settle. Which branch
+		// the library takes is then up to the Go scheduler and the runtime's
+		// select; the oracle applies to whichever happened, and the outcome is
+		// kept out of digests and step counts (it is not replayable by seed).
+		for k := 0; k < nops; k++ {
+			plans = append(plans, cancelPlan{Kind: "unforced", K: k, Phase: "exit"})
+		}
 	}
 	for _, plan := range plans {
 		if needsEnd && plan.Kind != "time" && plan.Kind != "op" {
@@ -626,6 +653,9 @@ func C20(r *eng.Run) {
 			continue // the op never happened: nothing ended the wait, by design
 		}
 		check(r, sc, plan, o)
+		if plan.Kind == "unforced" {
+			continue
+		}
 		r.Res.FakeNanos += int64(o.Returned)
 		r.Res.Steps += int64(len(o.Events))
 		r.D.Add(uint64(o.Returned))
@@ -668,6 +698,8 @@ func check(r *eng.Run, sc scenario, plan cancelPlan, o *outcome) {
 		r.Fault("cancel_at_time")
 	case "afterReturn":
 		r.Fault("cancel_after_return")
+	case "unforced":
+		r.Fault("cancel_unforced_select_race")
 	}
 	if o.Deadlock != "" {
 		if strings.Contains(o.Deadlock, "deadlock") {
